@@ -174,6 +174,15 @@ def mutate(tree, S, site, variant, prefer):
         nd["f"] = ops[v % len(ops)]
         return t, "mut-op"
     if kind == "side":
+        import porepy as pp
+
+        c = nd["c"]
+        cop = pp.ad.DenseArray(np.array(c, dtype=float)) if isinstance(c, list) else pp.ad.Scalar(c)
+        if build_ops(nd["a"], S)._key() == cop._key():
+            # a o a: swapping the operands gives the same tree; mutate the operation instead
+            ops = [o for o in "+-*/^" if o != nd["f"]]
+            nd["f"] = ops[v % len(ops)]
+            return t, "mut-op"
         nd["k"] = "rbin" if nd["k"] == "binc" else "binc"
         return t, "mut-side"
     if kind == "swap":
